@@ -451,6 +451,7 @@ func runEnumShard(rq enumReq) *enumRes {
 	}
 	n := e.Count(rq.Tier)
 	dl := time.Unix(rq.DeadlineUnix, 0)
+	perKey := map[string]int{}
 	for i := rq.Shard; i < n; i += rq.Of {
 		if time.Now().After(dl) {
 			res.Capped = true
@@ -477,7 +478,9 @@ func runEnumShard(rq enumReq) *enumRes {
 			}
 			v.Detail["case_index"] = i
 			v.Detail["case"] = r.Desc
-			if len(res.Violations) < 60 || os.Getenv("VERIF_DEBUG_ALL") != "" {
+			// keep at most two witnesses per key, but every key: a flood of one kind must never hide another
+			perKey[v.Key]++
+			if perKey[v.Key] <= 2 || os.Getenv("VERIF_DEBUG_ALL") != "" {
 				res.Violations = append(res.Violations, v)
 			}
 		}
